@@ -45,7 +45,8 @@ def _confirm(prop, path):
         p = subprocess.run(
             [os.path.join(core.HERE, "check"), prop, "--replay", path, "--quiet"],
             capture_output=True, text=True)
-        outs.append((p.returncode, p.stdout.strip().splitlines()[-1:] ))
+        last = (p.stdout.strip().splitlines() or [""])[-1]
+        outs.append((p.returncode, last.split(" detail_digest=")[0]))
     return outs
 
 
@@ -73,8 +74,11 @@ def do_replay(prop, path, quiet=False):
             print("  violation tags=%s\n    %s" % (json.dumps(v["tags"], sort_keys=True), v["detail"]))
     viol = same or r["viol"]
     if viol:
-        print("REPLAY property=%s reproduced=yes same_signature=%s digest=%s" % (
+        # digest: structural signature only (what the confirm step compares); detail_digest also
+        # covers the numbers, which may legitimately vary when a defect reads uninitialised memory
+        print("REPLAY property=%s reproduced=yes same_signature=%s digest=%s detail_digest=%s" % (
             prop, "yes" if same else "no",
+            core.sig_hash(sorted(core.sig_hash(v["tags"]) for v in viol)),
             core.sig_hash([[v["tags"], v["detail"]] for v in viol])))
         return 1
     print("REPLAY property=%s reproduced=no" % prop)
